@@ -1,5 +1,6 @@
 """Which units decide which property."""
 from props import KaniUnit
+from tv_units import AllocTVUnit, FlattenTVUnit, SimplifyTVUnit
 
 LIBM_STUBS = [
     "f32::sin, f32::cos -> functional, NaN/inf->NaN, range [-1,1] (no monotonicity)",
@@ -23,6 +24,14 @@ INTERVAL_FNS = ["fidget_core::types::Interval::{new,abs,square,sin,cos,tan,asin,
                 "<Interval as Add/Sub/Mul/Mul<f32>/Div/Neg/From<f32>>"]
 
 PROPS = {
+    "C04": {
+        "level": "translation_validation",
+        "units": [SimplifyTVUnit()],
+    },
+    "C01": {
+        "level": "translation_validation",
+        "units": [AllocTVUnit(), FlattenTVUnit()],
+    },
     "C11": {
         "level": "model_checking",
         "units": [
